@@ -894,6 +894,7 @@ func (ex *Exec) doMapUpdate(st *State, fr *Frame, x *ssa.MapUpdate) {
 	ex.emit(st, "safety", ex.srcLabel(fr.Fn, x.Pos(), "mapwrite"), Neq(ref, Zero), x.Pos(), []string{"C17"})
 	st.assume(Neq(ref, Zero))
 	ex.checkGuardedMapWrite(st, fr, x.Map, x.Pos())
+	ex.checkFrameMap(st, x.Map.Type(), ref, x.Pos())
 	key := ex.mapKey(st, ex.val(st, fr, x.Key), mt.Key())
 	ex.mapStore(st, x.Map.Type(), ref, key, ex.val(st, fr, x.Value))
 }
